@@ -37,6 +37,7 @@ class Scheduler:
         self.locks = []
         self.held = {}             # lock id -> tid
         self.lock_edges = set()    # (held lock name, acquired lock name)
+        self.fs_exec = []          # (len(trace) when the call really ran, tid, name)
         self.active = False
 
     # ---- called from library threads -------------------------------------------------------
@@ -208,6 +209,7 @@ def _make_os_proxy():
             if s is not None:
                 arg = a[0] if a else ''
                 s.yield_point('%s:%s' % (name, arg))
+                s.fs_exec.append((len(s.trace), s._me(), name))
             return fn(*a, **k)
         w.__name__ = name
         return w
